@@ -33,6 +33,15 @@ def stdlibSince : List ((Nat × Nat) × Nat) :=
    ((k! "typing", k! "Annotated"), 9),
    ((k! "typing", k! "TypeAlias"), 10),
    ((k! "typing", k! "NotRequired"), 11),
+   -- names the generator does not use on the pinned tree, authored so that a source that starts to use one is judged by
+   -- its real version instead of `unknown` (typing: PEP 544/591 3.8, 612/613/647 3.10, 655/673/675/646 3.11, 698 3.12, 705/742 3.13)
+   ((k! "typing", k! "Final"), 8), ((k! "typing", k! "Protocol"), 8),
+   ((k! "typing", k! "ParamSpec"), 10), ((k! "typing", k! "Concatenate"), 10), ((k! "typing", k! "TypeGuard"), 10),
+   ((k! "typing", k! "Required"), 11), ((k! "typing", k! "Self"), 11), ((k! "typing", k! "LiteralString"), 11),
+   ((k! "typing", k! "Never"), 11), ((k! "typing", k! "Unpack"), 11),
+   ((k! "typing", k! "override"), 12),
+   ((k! "typing", k! "ReadOnly"), 13), ((k! "typing", k! "TypeIs"), 13), ((k! "typing", k! "NoDefault"), 13),
+   ((k! "dataclasses", k! "KW_ONLY"), 10), ((k! "enum", k! "IntEnum"), 4), ((k! "enum", k! "StrEnum"), 11),
    ((k! "__future__", k! "annotations"), 7),
    ((k! "collections.abc", k! "Sequence"), 3), ((k! "collections.abc", k! "Mapping"), 3),
    ((k! "collections.abc", k! "Set"), 3),
@@ -101,6 +110,24 @@ def typeMapOf (key : Nat × Nat) : List (Nat × Nat) := (typeMapImports.lookup k
 DEFAULT_IMPORTS of the selected classes and of the enum model, the selected type map, the shared pool -/
 def possibleImports (key : Nat × Nat) (roles : List (Nat × Cls)) : List (Nat × Nat) :=
   selectedImports roles ++ enumClass.imports ++ typeMapOf key ++ sharedPool
+
+/-- every Import held by a class-level attribute (DEFAULT_IMPORTS and every other Import / tuple of Imports, as the class
+resolves it) of the classes `get_data_model_types` selected for `key`: the fixed places a field or model object of that
+selection can take a version-dependent import from -/
+def classAttrImports (key : Nat × Nat) : List (Nat × Nat) :=
+  ((classImportAttrs.lookup key).getD []).flatMap (fun a => a.2.2.2)
+
+/-- where the tables know an import from, for a run with this selection -/
+inductive Origin where
+  | classAttr | typeMap | pool | enumModel | outside
+  deriving Repr, DecidableEq
+
+def origin (key : Nat × Nat) (i : Nat × Nat) : Origin :=
+  if (classAttrImports key).contains i then .classAttr
+  else if (typeMapOf key).contains i then .typeMap
+  else if enumClass.imports.contains i then .enumModel
+  else if (importConstants.map (fun c => (c.2.2.1, c.2.2.2))).contains i then .pool
+  else .outside
 
 /-- the oldest supported target -/
 def minMinor : Nat := (versions.map (·.2)).foldl min 99
